@@ -1,8 +1,14 @@
 package ops
 
 import (
+	"math"
+
 	"gorgonia.org/tensor"
 )
+
+// maxExpArgument is a value for which the exponential function of every float type supported
+// by the activation functions overflows to +Inf.
+const maxExpArgument = 1000
 
 // Activation is an activation function.
 type Activation func(n tensor.Tensor) (tensor.Tensor, error)
@@ -33,6 +39,16 @@ func Sigmoid(X tensor.Tensor) (tensor.Tensor, error) {
 	negX, err := tensor.Neg(X)
 	if err != nil {
 		return nil, err
+	}
+
+	// The float32 exponential returns 0 instead of +Inf for arguments beyond roughly 1.5e9,
+	// which would make the sigmoid of a huge negative value 1 instead of 0. It overflows to
+	// +Inf long before that, so the argument can be limited without changing any result.
+	if negX.Dtype() == tensor.Float32 {
+		negX, err = tensor.Clamp(negX, float32(-math.MaxFloat32), float32(maxExpArgument), tensor.UseUnsafe())
+		if err != nil {
+			return nil, err
+		}
 	}
 
 	expX, err := tensor.Exp(negX)
